@@ -319,6 +319,29 @@ class ExtractHelper(ast.NodeTransformer):
         st.value = ast.Call(func=ast.Name(id=name, ctx=ast.Load()), args=[ast.Name(id=n, ctx=ast.Load()) for n in free], keywords=[])
 
 
+class ExplicitDefaults(ast.NodeTransformer):
+    """library calls get their documented default keywords spelled out (np.meshgrid(..., indexing="xy"), .groupby(..., sort=True), ...)"""
+
+    def visit_Call(self, node):
+        self.generic_visit(node)
+        from .contracts import LIB_DEFAULTS
+        f = node.func
+        if isinstance(f, ast.Attribute) and isinstance(f.value, ast.Name) and f.value.id == "np":
+            key = "numpy." + f.attr
+        elif isinstance(f, ast.Attribute) and isinstance(f.value, ast.Attribute) and isinstance(f.value.value, ast.Name) and f.value.value.id == "np":
+            key = "numpy.%s.%s" % (f.value.attr, f.attr)
+        elif isinstance(f, ast.Attribute):
+            key = "." + f.attr
+        else:
+            return node
+        have = {k.arg for k in node.keywords}
+        npos = len(node.args)
+        for (c, nm), d in LIB_DEFAULTS.items():
+            if c == key and nm not in have and not (key.startswith("numpy.") and npos >= 3) and not any(k.arg is None for k in node.keywords) and nm not in ("axis", "axes", "rtol", "atol", "k", "p"):
+                node.keywords.append(ast.keyword(arg=nm, value=ast.Constant(value=d)))
+        return node
+
+
 COMPOSED = ("keywordize", "rename", "commute", "invert-if", "yoda", "method-to-function", "else-after-return", "reverse-keywords", "fstring", "unpack-to-index")
 
 
@@ -356,6 +379,8 @@ def transformed(kind, root="/repo/verde", texts=None):
                 tree = UnpackToIndex().visit(tree)
             if k == "hoist":
                 tree = Hoist().visit(tree)
+            if k == "explicit-defaults":
+                tree = ExplicitDefaults().visit(tree)
             if k == "extract-helper":
                 xh = ExtractHelper(set())
                 tree = xh.visit(tree)
